@@ -256,6 +256,15 @@ type kOpts struct {
 	domain   string
 	execFile uintptr
 	stdin    *os.File
+	argv0    string // path of the probe as the program sees it (default: the host path)
+}
+
+func (o *kOpts) args() []string {
+	a0 := probePath
+	if o.argv0 != "" {
+		a0 = o.argv0
+	}
+	return append([]string{a0}, o.script...)
 }
 
 var bigLimit = runner.Limit{TimeLimit: time.Hour, MemoryLimit: runner.Size(64 << 30)}
@@ -301,7 +310,7 @@ func kRunPtrace(ctx context.Context, o *kOpts) (runner.Result, *kOut) {
 		lim = bigLimit
 	}
 	r := &ptrace.Runner{
-		Args: append([]string{probePath}, o.script...), Env: []string{"PATH=/bin"}, WorkDir: o.workdir,
+		Args: o.args(), Env: []string{"PATH=/bin"}, WorkDir: o.workdir,
 		Files: o.files(w), RLimits: o.rlimits, Limit: lim, Seccomp: o.filter, Handler: o.handler, SyncFunc: o.syncFunc,
 		ExecFile: o.execFile,
 	}
@@ -318,7 +327,7 @@ func kRunPtraceFiles(ctx context.Context, o *kOpts, files []uintptr) (runner.Res
 		lim = bigLimit
 	}
 	r := &ptrace.Runner{
-		Args: append([]string{probePath}, o.script...), Env: []string{"PATH=/bin"}, WorkDir: o.workdir,
+		Args: o.args(), Env: []string{"PATH=/bin"}, WorkDir: o.workdir,
 		Files: files, RLimits: o.rlimits, Limit: lim, Seccomp: o.filter, Handler: o.handler, SyncFunc: o.syncFunc,
 	}
 	return r.Run(ctx), nil
@@ -338,7 +347,7 @@ func kRunUnshare(ctx context.Context, o *kOpts) (runner.Result, *kOut) {
 		o.filter = kFilterAllowAllBut(nil, nil)
 	}
 	r := &unshare.Runner{
-		Args: append([]string{probePath}, o.script...), Env: []string{"PATH=/bin"}, WorkDir: o.workdir,
+		Args: o.args(), Env: []string{"PATH=/bin"}, WorkDir: o.workdir,
 		Files: o.files(w), RLimits: o.rlimits, Limit: lim, Seccomp: o.filter, SyncFunc: o.syncFunc,
 		Root: o.root, Mounts: o.mounts, HostName: o.host, DomainName: o.domain, ExecFile: o.execFile,
 	}
